@@ -739,7 +739,9 @@ impl SvgElement {
         // captured in the 'remain' thing for deferred elements, and is always the same
         // element as evaluated here. Probably need to store a 'prev' (and later, 'next')
         // internal ID with each element so can follow a chain of these.
-        let mut seen: Vec<OrderIndex> = vec![];
+        // (elements generated by one loop body share their OrderIndex: the id, where
+        // there is one, tells them apart)
+        let mut seen: Vec<(OrderIndex, Option<String>)> = vec![];
         let mut element = self;
 
         while element.name == "use" || element.name == "reuse" {
@@ -755,13 +757,14 @@ impl SvgElement {
             }
             let elref = href.parse()?;
             if let Some(el) = ctx.get_element(&elref) {
-                if seen.contains(&el.order_index) {
+                let key = (el.order_index.clone(), el.get_attr("id"));
+                if seen.contains(&key) {
                     return Err(SvgdxError::CircularRefError(format!(
                         "{} already seen",
                         elref
                     )));
                 }
-                seen.push(el.order_index.clone());
+                seen.push(key);
                 element = el;
             } else {
                 return Err(SvgdxError::ReferenceError(elref));
